@@ -65,6 +65,8 @@ pub struct FailedCommit {
 	pub class: String,
 	pub start_seq: u64,
 	pub keys: Vec<Key>,
+	/// op-log position at which commit() was invoked (0 if unknown)
+	pub op_at_invoke: usize,
 }
 
 pub struct Outcome {
@@ -108,6 +110,7 @@ struct PendingCommit {
 	writes: Vec<Write>,
 	sync: bool,
 	commit_ts: u64,
+	op_at_invoke: usize,
 }
 
 pub struct Sh {
@@ -132,6 +135,7 @@ pub struct Sh {
 	txn_counter: Cell<u64>,
 	faults_active: Cell<bool>,
 	checkpoint_model: RefCell<Option<Model>>,
+	checkpoint_model_b: RefCell<Option<Model>>,
 	step_ix: Cell<usize>,
 	failed_commits: RefCell<Vec<FailedCommit>>,
 	/// a compaction / flush is executing further down the stack (the store has one level
@@ -279,6 +283,7 @@ impl Sh {
 			txn_counter: Cell::new(0),
 			faults_active: Cell::new(!plan_has_faults),
 			checkpoint_model: RefCell::new(None),
+			checkpoint_model_b: RefCell::new(None),
 			step_ix: Cell::new(0),
 			failed_commits: RefCell::new(Vec::new()),
 			in_compaction: Cell::new(0),
@@ -778,7 +783,7 @@ impl Sh {
 			// WAL clean-up a flush schedules) does not get its turn before a following restore /
 			// checkpoint / close: it then runs against the state those operations leave behind
 			let defer = self.plan.params.get("defer_spawned").copied().unwrap_or(0) == 1
-				&& matches!(steps.get(i + 1), Some(Step::Restore | Step::Checkpoint | Step::Reopen | Step::Close));
+				&& matches!(steps.get(i + 1), Some(Step::Restore | Step::RestoreB | Step::Checkpoint | Step::CheckpointB | Step::Reopen | Step::Close));
 			if !defer {
 				self.settle().await;
 			}
@@ -851,6 +856,16 @@ impl Sh {
 		match s {
 			Step::Probe => self.probe(&tree),
 			Step::Rotate => self.bg("rotate", tree.verif_rotate().map(|_| false)),
+			Step::RotateFlushIfUnlocked => {
+				if tree.verif_active_memtable_unlocked() && self.in_flush.get() == 0 {
+					self.ev("tripwire: active memtable unlocked inside a guarded window".into());
+					self.bg("rotate", tree.verif_rotate().map(|_| false));
+					self.in_flush.set(self.in_flush.get() + 1);
+					let r = tree.verif_flush_all().map(|_| true);
+					self.in_flush.set(self.in_flush.get() - 1);
+					self.bg("flush_all", r);
+				}
+			}
 			Step::FlushOne | Step::FlushAll if self.in_flush.get() > 0 => {}
 			Step::CompactRound | Step::CompactAll if self.in_compaction.get() > 0 => {}
 			Step::FlushOne => {
@@ -920,8 +935,10 @@ impl Sh {
 				ip::clear_faults();
 			}
 			Step::RecoverSettle => self.recover_settle(&tree),
-			Step::Checkpoint => self.checkpoint(&tree),
-			Step::Restore => self.restore(&tree),
+			Step::Checkpoint => self.checkpoint(&tree, false),
+			Step::Restore => self.restore(&tree, false),
+			Step::CheckpointB => self.checkpoint(&tree, true),
+			Step::RestoreB => self.restore(&tree, true),
 			_ => {}
 		}
 	}
@@ -959,25 +976,35 @@ impl Sh {
 		p
 	}
 
-	fn checkpoint(&self, tree: &Tree) {
+	fn checkpoint_dir_of(&self, second: bool) -> PathBuf {
+		let mut p = self.checkpoint_dir();
+		if second {
+			let name = format!("{}_b", p.file_name().unwrap().to_string_lossy());
+			p.set_file_name(name);
+		}
+		p
+	}
+
+	fn checkpoint(&self, tree: &Tree, second: bool) {
 		// only at quiescent points: no commit in flight
 		let busy = self.actors.iter().any(|a| a.try_borrow().map(|x| x.fut.is_some()).unwrap_or(true));
 		if busy {
 			return;
 		}
-		let dir = self.checkpoint_dir();
+		let dir = self.checkpoint_dir_of(second);
 		let _ = std::fs::remove_dir_all(&dir);
 		match tree.create_checkpoint(&dir) {
 			Ok(_) => {
-				*self.checkpoint_model.borrow_mut() = Some(self.model.borrow().clone());
+				let slot = if second { &self.checkpoint_model_b } else { &self.checkpoint_model };
+				*slot.borrow_mut() = Some(self.model.borrow().clone());
 				self.ev("checkpoint".into());
 			}
 			Err(e) => self.fail("checkpoint_failed", e.to_string()),
 		}
 	}
 
-	fn restore(&self, tree: &Tree) {
-		let cm = self.checkpoint_model.borrow().clone();
+	fn restore(&self, tree: &Tree, second: bool) {
+		let cm = if second { self.checkpoint_model_b.borrow().clone() } else { self.checkpoint_model.borrow().clone() };
 		let cm = match cm {
 			Some(m) => m,
 			None => return,
@@ -988,7 +1015,7 @@ impl Sh {
 		}
 		// transactions begun before the restore belong to the discarded timeline
 		self.drop_actors();
-		match tree.restore_from_checkpoint(self.checkpoint_dir()) {
+		match tree.restore_from_checkpoint(self.checkpoint_dir_of(second)) {
 			Ok(_) => {
 				*self.model.borrow_mut() = cm;
 				self.max_horizon.set(0);
@@ -1532,8 +1559,8 @@ impl Sh {
 		let commit_ts = ip::advance_clock(1000);
 		self.stats.borrow_mut().sim_time_ns += 1000;
 		if exp.is_none() && !tm.writes.is_empty() {
-			self.pending.borrow_mut().insert(ai, PendingCommit { start_seq: tm.horizon, txn_id: act.txn_id, writes: tm.writes.clone(), sync, commit_ts });
-			ip::marker(format!("invoke commit txn{}", act.txn_id));
+			let op_at_invoke = ip::marker(format!("invoke commit txn{}", act.txn_id));
+			self.pending.borrow_mut().insert(ai, PendingCommit { start_seq: tm.horizon, txn_id: act.txn_id, writes: tm.writes.clone(), sync, commit_ts, op_at_invoke });
 		}
 		self.ev(format!("commit a{} txn{} sync={}", ai, act.txn_id, sync));
 		let fut: CommitFut = Box::pin(tokio::task::unconstrained(async move {
@@ -1647,7 +1674,17 @@ impl Sh {
 								_ => st.commits_err += 1,
 							}
 							drop(st);
-							ip::marker(format!("fail commit txn{} {}", act.txn_id, cls));
+							let at_fail = ip::marker(format!("fail commit txn{} {}", act.txn_id, cls));
+							{
+								// a failed commit that had sequence numbers: remember when its
+								// failure was reported (until then its conflict-map stamps are real)
+								let mut m = self.model.borrow_mut();
+								if let Some(c) = m.by_txn_mut(act.txn_id) {
+									if c.status == Status::Failed && c.op_at_ack.is_none() {
+										c.op_at_ack = Some(at_fail);
+									}
+								}
+							}
 							self.ev(format!("fail a{} txn{} {}", ai, act.txn_id, cls));
 							let (start_seq, keys) = match &pend {
 								Some(p) => (p.start_seq, p.writes.iter().map(|w| w.key.clone()).collect()),
@@ -1656,7 +1693,8 @@ impl Sh {
 									m.commits.iter().find(|c| c.txn == act.txn_id).map(|c| (c.start_seq, c.writes.iter().map(|w| w.key.clone()).collect())).unwrap_or((0, vec![]))
 								}
 							};
-							self.commit_failed(ai, act.txn_id, cls, &e, start_seq, keys);
+							let op_at_invoke = pend.as_ref().map(|p| p.op_at_invoke).unwrap_or(0);
+							self.commit_failed(ai, act.txn_id, cls, &e, start_seq, keys, op_at_invoke);
 							// after a failed commit the actor abandons the transaction
 							drop(txn);
 							act.txn = None;
@@ -1670,8 +1708,9 @@ impl Sh {
 
 	/// Judgement of a failed commit (conflict soundness etc.) – filled in by history
 	/// checkers; here: on fault-free runs only conflict/retry are legitimate.
-	fn commit_failed(&self, ai: usize, txn: u64, cls: &str, e: &KvError, start_seq: u64, keys: Vec<Key>) {
-		self.failed_commits.borrow_mut().push(FailedCommit { actor: ai, txn, class: cls.to_string(), start_seq, keys });
+	#[allow(clippy::too_many_arguments)]
+	fn commit_failed(&self, ai: usize, txn: u64, cls: &str, e: &KvError, start_seq: u64, keys: Vec<Key>, op_at_invoke: usize) {
+		self.failed_commits.borrow_mut().push(FailedCommit { actor: ai, txn, class: cls.to_string(), start_seq, keys, op_at_invoke });
 		if self.closing.get() && cls == "PipelineStall" {
 			return; // shutdown in progress: the commit was refused, which is a legitimate outcome
 		}
@@ -1852,6 +1891,9 @@ impl Sh {
 				// simulated clock by one tick per reading while simulated time stands still
 				// (a compaction reads it for every version)
 				let t = self.tree.borrow().as_ref().map(|t| t.verif_clock_now()).unwrap_or(0);
+				if std::env::var("SKV_HDBG").is_ok() {
+					eprintln!("HDBG clock store={} sim={} tree_present={}", t, ip::advance_clock(0), self.tree.borrow().is_some());
+				}
 				t.max(ip::advance_clock(0))
 			};
 			let ordered_ok = got.windows(2).all(|w| w[0].key < w[1].key || (w[0].key == w[1].key && w[0].ts >= w[1].ts));
